@@ -296,6 +296,28 @@ pub fn defender_product(rng: &mut Rng, sizes: &[usize], extra: usize) -> Abs {
     Abs::new(n, att)
 }
 
+/// Few complete extensions, many admissible sets: a 2-cycle hub a<->b, k chains a -> c_i -> d_i
+/// (d_i defended by a, c_i reinstated by b), and an argument z defended by both a and b through w.
+/// Complete sets: {}, {a, d.., z}, {b, c.., z}; admissible sets: about 2^(k+1).
+/// The natural hostile shape for bounds stated in the number of *complete* candidate sets.
+pub fn adm_rich(rng: &mut Rng, k: usize) -> Abs {
+    let n = 2 * k + 4;
+    let (a, b, w, z) = (0, 1, 2 + 2 * k, 3 + 2 * k);
+    let mut att = vec![(a, b), (b, a), (a, w), (b, w), (w, z)];
+    for i in 0..k {
+        let c = 2 + i;
+        let d = 2 + k + i;
+        att.push((a, c));
+        att.push((c, d));
+        if rng.pct(15) {
+            // a second defender chain hanging off b
+            att.push((b, d));
+            att.push((d, c));
+        }
+    }
+    shuffle_labels(&Abs::new(n, att), rng)
+}
+
 /// ER graph with some attacks declared twice.
 pub fn dup(rng: &mut Rng, nmin: usize, nmax: usize) -> Abs {
     let mut g = random_er(rng, nmin, nmax);
